@@ -481,10 +481,10 @@ def plan(ctx, rnd):
     sc = []
     sid = 0
     quick = ctx.tier == "quick"
-    reps = 1 if quick else 4
+    reps = 1 if quick else 2
     for rep in range(reps):
         for m in MODELS:
-            for ngroup in ((1, 2) if quick else (1, 2, 3)):
+            for ngroup in ((1, 2) if (quick or rep > 0) else (1, 2, 3)):
                 gauss = (sid % 2 == 1)
                 if quick and ngroup == 2 and MODELS.index(m) % 2 == 1:
                     sid += 1
